@@ -100,6 +100,7 @@ def run(prog, tier, extra=None):
     res = Result("C07", "other")
     R1 = res.rule("C07.same-source", "producer and validator call the same functions for consensus values and required work, with matching argument provenance", floor=3)
     R3 = res.rule("C07.scan-covers-block", "the producer's double-spend scan runs after the last transaction is added to the block", floor=1)
+    R4 = res.rule("C07.fee-tx-presence", "the producer appends the fee transaction exactly when the consensus values contain one", floor=1)
     R2 = res.rule("C07.field-correspondence", "every header field the validator compares with a consensus value is produced from the same consensus value", floor=22)
     bv = BlockValidate(prog)
     vb, vch = bv.body, bv.ch
@@ -249,8 +250,68 @@ def run(prog, tier, extra=None):
             res.sample({"rule": R3, "scan": sorted(set(cr.loc(x) for x in scan_blocks))[:3], "additions": sorted(set(cr.loc(x) for x in tx_adds))[:6],
                         "verdict": "nothing is added to block.transactions after the scan"})
 
+    # R4: the validator demands exactly one fee transaction when cv.fee_transaction is Some and none otherwise (C02.payout-exact);
+    # the producer must therefore append it under that condition alone: from every edge on which cv.fee_transaction is known to be
+    # Some, no exit of Block::create is reachable without the push of that transaction
+    from ..expr import strip as _strip
+    crch = Chaser(cr)
+    some_edges = set()
+    for bb, blk in enumerate(cr.blocks):
+        t = blk["t"]
+        if t["k"] != "switch":
+            continue
+        e, neg = gate.unwrap_not(crch.origin(t["discr"]))
+        zero = [tgt for v, tgt in t["targets"] if v == 0]
+        one = [tgt for v, tgt in t["targets"] if v == 1]
+        other = t["otherwise"]
+        if e[0] == "call" and e[1] in ("std::option::Option::is_some", "std::option::Option::is_none") and e[2] and has_field(e[2][0], "ConsensusValues", "fee_transaction"):
+            false_t = zero if zero else ([other] if one else [])
+            true_t = one if one else ([other] if zero else [])
+            if neg:
+                false_t, true_t = true_t, false_t
+            for tgt in (true_t if e[1].endswith("is_some") else false_t):
+                some_edges.add((bb, tgt))
+        elif e[0] == "discr" and _strip(e[1])[0] == "field" and _strip(e[1])[3] == "fee_transaction" and has_field(e[1], "ConsensusValues", "fee_transaction"):
+            some_edges |= gate.variant_edges(cr, bb, 1)
+    adds = set()
+
+    def from_fee_tx(e, depth=0):
+        """the value is (a local initialised from) cv.fee_transaction"""
+        if has_field(e, "ConsensusValues", "fee_transaction"):
+            return True
+        x = _strip(e)
+        if x[0] == "local" and depth < 3:
+            for d in cr.defs(x[1]):
+                if d[0] == "stmt" and from_fee_tx(crch.rvalue(d[3], 0), depth + 1):
+                    return True
+                if d[0] == "call" and any(from_fee_tx(crch.origin(a), depth + 1) for a in d[2]["args"]):
+                    return True
+        return False
+    for bb, t in cr.calls():
+        n = call_name(t) or ""
+        if n.rsplit("::", 1)[-1] in ("push", "add_transaction", "insert", "extend", "append") and any(
+                from_fee_tx(crch.origin(a)) for a in t["args"][1:]):
+            adds.add(bb)
+    res.instance(R4)
+    if not some_edges or not adds:
+        res.add(Finding(R4, "C07.fee-tx-presence|anchors", "Block::create: no test of cv.fee_transaction / no append of the fee transaction found (%d tests, %d appends)"
+                        % (len(some_edges), len(adds)), cr.loc(0)))
+    else:
+        bad = None
+        for (sb, tgt) in sorted(some_edges):
+            pth = cr.find_path(tgt, cr.return_blocks(), blocked=adds)
+            if pth:
+                bad = (sb, pth)
+                break
+        if bad:
+            res.add(Finding(R4, "C07.fee-tx-presence|skipped", "Block::create can finish without appending the fee transaction although cv.fee_transaction is Some: the validator "
+                            "(which requires exactly that transaction) rejects the node's own block", cr.loc(bad[0]), {"path": [cr.loc(x) for x in bad[1][:12]]}))
+        else:
+            res.sample({"rule": R4, "tests": [cr.loc(sb) for sb, _ in some_edges], "appends": [cr.loc(x) for x in adds], "verdict": "appended whenever expected"})
     # producer and validator agree only if cached per-transaction values are the ones the validator recomputes
     from ._include import include
+    include(res, prog, tier, extra, "c13", ["C13.compare", "C13.derive"],
+            "the rebroadcast set the producer builds is the one the validator re-derives only if both commit to and count the same things")
     include(res, prog, tier, extra, "c14", ["C14.cached-work"],
             "the producer bundles with cached routing work; the validator recomputes it: a stale cache makes the node reject its own block")
     res.explanation = (
